@@ -223,20 +223,29 @@ func genForms(repo string) (string, error) {
 	return b.String(), nil
 }
 
+// leanDoc renders "Forms:" rows as lists of words.
+func leanDoc(rows []string) string {
+	q := make([]string, len(rows))
+	for i, r := range rows {
+		q[i] = leanNameList(strings.Fields(r))
+	}
+	return "[" + strings.Join(q, ", ") + "]"
+}
+
 func leanCtor(c *ctorAST) string {
 	if c.ShapeErr != "" {
-		return fmt.Sprintf("⟨%s, %s, %s, 0, 0, 0, 0, [], [], false, %s⟩ /- %s: %s -/", encName(c.Name), leanNameList(c.Params), leanBool(c.Variadic), leanNameList(c.Doc), c.Name, c.ShapeErr)
+		return fmt.Sprintf("⟨%s, %s, %s, 0, 0, 0, 0, [], [], false, %s⟩ /- %s: %s -/", encName(c.Name), leanNameList(c.Params), leanBool(c.Variadic), leanDoc(c.Doc), c.Name, c.ShapeErr)
 	}
 	return fmt.Sprintf("⟨%s, %s, %s, %s, %s, %s, %s, %s, %s, %s, %s⟩", encName(c.Name), leanNameList(c.Params), leanBool(c.Variadic),
-		encName(c.Callee), encName(c.OpcConst), encName(c.FormsSel), encName(c.SfxType), leanNameList(c.SfxConsts), leanNameList(c.Args), leanBool(c.ArgsIsSlice), leanNameList(c.Doc))
+		encName(c.Callee), encName(c.OpcConst), encName(c.FormsSel), encName(c.SfxType), leanNameList(c.SfxConsts), leanNameList(c.Args), leanBool(c.ArgsIsSlice), leanDoc(c.Doc))
 }
 
 func leanWrap(w *wrapAST) string {
 	if w.ShapeErr != "" {
-		return fmt.Sprintf("⟨%s, %s, %s, 0, 0, 0, 0, [], false, %s⟩ /- %s: %s -/", encName(w.Name), leanNameList(w.Params), leanBool(w.Variadic), leanNameList(w.Doc), w.Name, w.ShapeErr)
+		return fmt.Sprintf("⟨%s, %s, %s, 0, 0, 0, 0, [], false, %s⟩ /- %s: %s -/", encName(w.Name), leanNameList(w.Params), leanBool(w.Variadic), leanDoc(w.Doc), w.Name, w.ShapeErr)
 	}
 	return fmt.Sprintf("⟨%s, %s, %s, %s, %s, %s, %s, %s, %s, %s⟩", encName(w.Name), leanNameList(w.Params), leanBool(w.Variadic),
-		encName(w.Recv), encName(w.Via), encName(w.Pkg), encName(w.Callee), leanNameList(w.Args), leanBool(w.Spread), leanNameList(w.Doc))
+		encName(w.Recv), encName(w.Via), encName(w.Pkg), encName(w.Callee), leanNameList(w.Args), leanBool(w.Spread), leanDoc(w.Doc))
 }
 
 func genCtorsShard(i int) func(string) (string, error) {
